@@ -208,6 +208,14 @@ def streams(tier, rng, P, only=None, cases=None):
             cs.append(dict(req="run " + hx(src), src=src, show=src, sexp=sx, nt=nt_, key="s%d" % i))
         for j, (src, sx) in enumerate(FIXED):
             cs.append(dict(req="run " + hx(src), src=src, show=src, sexp=sx, nt=1, key="fixed%d" % j))
+        # the same statements laid out over several lines: ELSE on the line after the closing brace or after a comment, bodies on their own lines
+        ML = [("IF(1){ PRINT(1) }\nELSE{ PRINT(2) }\nPRINT(3)", "(() ((if 1 ((print 1)) ((print 2))) (print 3)))"),
+              ("IF(0){ PRINT(1) } // no\nELSE{ PRINT(2) }\nPRINT(3)", "(() ((if 0 ((print 1)) ((print 2))) (print 3)))"),
+              ("INT A=0\nIF(A){\n PRINT(1)\n}\n\nELSE{\n PRINT(2) n60\n}\nPRINT(3)", "(() ((decl A 0) (if A ((print 1)) ((print 2) (note 60))) (print 3)))"),
+              ("FOR(INT I=0;I<3;I++){\n IF(I==1){ PRINT(I) }\n ELSE{ n60 }\n}\nPRINT(I)", "(() ((for I 0 (b 9 I 3) (inc I 1) ((if (b 5 I 1) ((print I)) ((note 60))))) (print I)))"),
+              ("FUNCTION F(A){\n IF(A>1){ RETURN(1) } /* c */\n ELSE{ RETURN(2) }\n}\nPRINT(F(5)) PRINT(F(0))", "(((fn F ((A 0)) ((if (b 7 A 1) ((ret 1)) ((ret 2)))))) ((print (call F (5))) (print (call F (0)))))")]
+        for j, (src, sx) in enumerate(ML):
+            cs.append(dict(req="run " + hx(src), src=src, show=src, sexp=sx, nt=1, key="ml%d" % j, multiline=True))
         return cs
     def model(c, st, f): return ["script " + hx(c["sexp"])]
     def judge(c, impl, m):
@@ -222,6 +230,7 @@ def streams(tier, rng, P, only=None, cases=None):
         if re.search(r"\d{18,}", want_log): return None      # values beyond 64 bits: the model's integers are unbounded, the domain is |n| < 2^63
         got_log = unhx(f.get("log", "~")).decode("utf-8", "replace")
         got_notes = ",".join(e.split(":")[3] for e in f["tracks"].split(";")[0].split(",") if e.startswith("on:"))
+        if c.get("multiline"): got_log = re.sub(r"\[PRINT\]\(\d+\)", "[PRINT](0)", got_log)      # (line numbers are C19's subject)
         if got_log != want_log:
             return ("violation", "log differs from the unrolled/interpreted program: got %r want %r" % (got_log[-200:], want_log[-200:]))
         if got_notes != want_notes:
